@@ -11,6 +11,7 @@ from collections import defaultdict
 
 import common as C
 import proofs as P
+import tableaumc
 
 GEN_CFG = "SPECIFICATION GenSpec\nPOSTCONDITION GenPost\nCHECK_DEADLOCK FALSE\n"
 VAL_CFG = "SPECIFICATION Spec\nINVARIANT Publish\nPOSTCONDITION Post\nCHECK_DEADLOCK FALSE\n"
@@ -19,9 +20,16 @@ OPTS = [(1, 1), (1, 0), (0, 1), (0, 0)]
 QUICK_MODAL = ['D', 'KFDE', 'TK3W', 'S4B3E', 'S5LP', 'S4GO', 'TL3', 'S5G3']
 
 
+MC_LOGICS = ['CPL', 'FDE', 'K3', 'LP', 'L3', 'RM3', 'K3W', 'B3E', 'G3', 'MH', 'NH', 'GO', 'P3']
+
+
 def run(rep):
     rep.group_keys = ('clause', 'logic_family', 'root')
     d = C.subdir('c03')
+    # pipeline C: all schedules of the calculus with the rule table extracted from the code
+    tableaumc.run(rep, MC_LOGICS, d, 'c03', full=rep.tier == 'thorough')
+    rep.cov['mc_logics'] = len(MC_LOGICS)
+    rep.cov['mc_states'] = rep.cov['states']
     par = {'nc0': 2, 'nc1': 1, 'np1': 1}
     (d / 'par.json').write_text(json.dumps(par))
     r = C.tlc('C03_Prop', GEN_CFG, env={'CASES': '/dev/null', 'PAR': d / 'par.json'}, out_name='cases.ndjson',
